@@ -11,6 +11,7 @@ import (
 func vwBounds(o vwOpts) map[string]any {
 	return map[string]any{
 		"voters": vwN, "write_quorum": vwQ, "commands": o.cmds, "authority_allocations_after_initial": o.maxInstalls,
+		"store_backend": map[bool]string{false: "channelstore.MemoryFactory", true: "channelstore.MessageDBFactory (pkg/db/message, Pebble on tmpfs)"}[o.backend != nil],
 		"crash_restarts": o.maxCrashes, "outages": o.maxOutages, "max_retained_commands": o.retained,
 		"events": map[string]bool{
 			"commit/exact-retry": true, "conflicting-retry": o.evConflict, "commit-with-previous-authority": o.evPrev,
@@ -70,6 +71,10 @@ func vwDebugBounds(depth, devs int) (int, int) {
 
 // vwRun explores one (depth, deviations) box of the world.
 func vwRun(r *ev.R, name string, o vwOpts, st *vwStats, depth, devs int, note string) mc.Result {
+	return vwRunWorkers(r, name, o, st, depth, devs, 0, note)
+}
+
+func vwRunWorkers(r *ev.R, name string, o vwOpts, st *vwStats, depth, devs, workers int, note string) mc.Result {
 	depth, devs = vwDebugBounds(depth, devs)
 	o.noPrune = os.Getenv("VERIF_DEBUG_NOPRUNE") == "1"
 	if os.Getenv("VERIF_DEBUG_MINIMAL") == "1" { // experiments: commits + next-term installs + replicate/probe faults only
@@ -77,6 +82,6 @@ func vwRun(r *ev.R, name string, o vwOpts, st *vwStats, depth, devs int, note st
 	}
 	return mc.Run(r, mc.System{
 		Name: name, New: func() mc.Instance { return newVW(o, st) },
-		MaxDepth: depth, MaxDeviations: devs, Bounds: vwBounds(o), Note: note,
+		MaxDepth: depth, MaxDeviations: devs, Workers: workers, Bounds: vwBounds(o), Note: note,
 	})
 }
